@@ -47,6 +47,8 @@ def convert_array_1d(
     is_native = array_1d.shape[0] == mask_1d.shape_native[0]
 
     if is_native == store_native:
+        if is_native:
+            return array_1d * np.invert(np.array(mask_1d))
         return array_1d
     elif not store_native:
         return array_1d_slim_from(
